@@ -174,31 +174,254 @@ PROFILE = {"nbody": (1, 4), "actuators": (1, 3), "sensors": (0, 1), "cameras": 0
            "mocap": 0.15, "energy": 0.0}
 
 
-def make_models(ctx, count):
+HANDLE_OPS = ("body", "frame", "joint", "freejoint", "geom", "site", "camera", "light", "actuator", "sensor", "tendon",
+              "equality", "pair", "exclude", "key", "numeric", "text", "tuple", "mesh")
+
+
+def max_handle(lines):
+    h = 0
+    for l in lines:
+        t = l.split()
+        if t and t[0] in HANDLE_OPS and len(t) > 1 and t[1].isdigit():
+            h = max(h, int(t[1]))
+    return h
+
+
+def popcount(x):
+    return bin(x).count("1")
+
+
+def add_multi_input(rng, mdl, hist):
+    """Post-processes the generated description: actuators whose control block is not one scalar (this tree: so3
+    orientation servos with 3 / 4 inputs, pid servos with a subset of [pos, vel, ff], dcmotor with a subset of
+    [pos, vel, ff, voltage] or NO input), so that nu != nactuator and ctrl / act addresses differ from actuator ids.
+    The new blocks are placed before, between or after the generated single-input actuators.  Returns the list of
+    (kind, number of inputs) added."""
+    h = [max_handle(mdl.lines)]
+
+    def newh():
+        h[0] += 1
+        return h[0]
+    tail = []          # body / joint lines appended at the end (new top-level bodies come last in body order)
+    blocks = []        # one list of lines per new actuator
+    added = []
+
+    def new_body(jt):
+        bh, jh, gh = newh(), newh(), newh()
+        bn, jn = "mb%d" % bh, "mj%d" % jh
+        tail.extend(["body %d 0" % bh, "name %d %s" % (bh, bn),
+                     "set %d pos %r %r %r" % (bh, rng.uniform(-2, 2), rng.uniform(2, 3), rng.uniform(0.5, 1.5)),
+                     "joint %d %d" % (jh, bh), "name %d %s" % (jh, jn), "set %d type %d" % (jh, E("mjJNT_" + jt.upper()))])
+        if jt != "ball":
+            tail.append("set %d axis 0 1 0" % jh)
+        if rng.random() < 0.5:
+            tail.append("set %d damping %r" % (jh, rng.uniform(0.05, 1.0)))
+        tail.extend(["geom %d %d" % (gh, bh), "set %d type %d" % (gh, E("mjGEOM_BOX")),
+                     "set %d size %r %r %r" % (gh, rng.uniform(0.05, 0.2), rng.uniform(0.05, 0.2), rng.uniform(0.05, 0.2)),
+                     "set %d pos 0.1 0 0" % gh, "set %d contype 0" % gh, "set %d conaffinity 0" % gh])
+        j = {"name": jn, "type": jt, "body": bn, "qposadr": mdl.nq, "dofadr": mdl.nv, "limited": False, "range": (0.0, 0.0), "handle": jh}
+        mdl.joints.append(j)
+        mdl.bodies.append({"name": bn, "handle": bh, "parent": 0, "mocap": False, "toplevel": True})
+        mdl.nq += 4 if jt == "ball" else 1
+        mdl.nv += 3 if jt == "ball" else 1
+        return j
+
+    def target(kinds):
+        js = [j for j in mdl.joints if j["type"] in kinds]
+        if js and rng.random() < 0.7:
+            return rng.choice(js)
+        return new_body("ball" if "ball" in kinds else rng.choice(("hinge", "slide")))
+
+    for _ in range(rng.choice((1, 1, 2, 2, 3))):
+        kind = rng.choice(("so3", "so3", "pid", "pid", "dcmotor"))
+        ah = newh()
+        an = "ma%d" % ah
+        B = ["actuator %d" % ah, "name %d %s" % (ah, an)]
+        na = 0
+        if kind == "so3":
+            kp, kv = rng.uniform(1, 30), rng.uniform(0, 2)
+            sites = [s for s in mdl.sites]
+            if len(sites) >= 2 and rng.random() < 0.25:
+                a, b = rng.sample(sites, 2)
+                B += ["set %d trntype %d" % (ah, E("mjTRN_SITE")), "set %d target %s" % (ah, a["name"]), "set %d refsite %s" % (ah, b["name"])]
+                trn = "site"
+            else:
+                B += ["set %d trntype %d" % (ah, E("mjTRN_JOINT")), "set %d target %s" % (ah, target(("ball",))["name"])]
+                trn = "joint"
+            variant = rng.choice(("expmap", "expmap-default", "quat", "integrator", "integrator"))
+            B += ["set %d gaintype %d" % (ah, E("mjGAIN_SO3")), "set %d biastype %d" % (ah, E("mjBIAS_SO3")),
+                  "set %d gainprm %r" % (ah, kp), "set %d biasprm 0 %r %r" % (ah, -kp, -kv)]
+            if variant == "expmap":
+                B.append("set %d ctrlspec %d" % (ah, E("mjCHART_EXPMAP")))
+            if variant == "quat":
+                B.append("set %d ctrlspec %d" % (ah, E("mjCHART_QUAT")))
+            nin = 4 if variant == "quat" else 3
+            if variant == "integrator":
+                B.append("set %d dyntype %d" % (ah, E("mjDYN_INTEGRATOR")))
+                na = 3
+                if rng.random() < 0.3:
+                    B.append("set %d actearly 1" % ah)
+            if rng.random() < 0.3:
+                B += ["set %d forcelimited %d" % (ah, E("mjLIMITED_TRUE")), "set %d forcerange 0 %r" % (ah, rng.uniform(0.5, 20))]
+            kind = "so3-%s-%s" % (variant, trn)
+        elif kind == "pid":
+            kp, kv = rng.uniform(1, 40), rng.uniform(0, 3)
+            P, V, F = E("mjINPUT_POS"), E("mjINPUT_VEL"), E("mjINPUT_FF")
+            stateful = rng.random() < 0.5
+            spec = rng.choice((0, P, P | V, P | V | F, P | F) if stateful else (0, P, P | V, P | V | F, P | F, V, V | F, F))
+            B += ["set %d trntype %d" % (ah, E("mjTRN_JOINT")), "set %d target %s" % (ah, target(("hinge", "slide"))["name"]),
+                  "set %d gaintype %d" % (ah, E("mjGAIN_PID")), "set %d biastype %d" % (ah, E("mjBIAS_AFFINE")),
+                  "set %d biasprm 0 %r %r" % (ah, -kp, -kv)]
+            if spec:
+                B.append("set %d ctrlspec %d" % (ah, spec))
+            nin = popcount(spec or (P | V))
+            if not stateful:
+                B.append("set %d gainprm 0" % ah)          # ki needs dyntype pid (the default gainprm[0] is 1)
+            if stateful:
+                ki = rng.choice((0.0, rng.uniform(0.5, 10)))
+                slew = 0.0 if ki else rng.uniform(0.5, 5)      # (both states: the compiler rejects actdim 2 for dyntype pid)
+                na = (1 if ki > 0 else 0) + (1 if slew > 0 else 0)
+                B += ["set %d dyntype %d" % (ah, E("mjDYN_PID")), "set %d gainprm %r" % (ah, ki),
+                      "set %d dynprm %r %r" % (ah, rng.choice((0.0, rng.uniform(0.1, 2))) if ki else 0.0, slew),
+                      "set %d actdim %d" % (ah, na)]
+            if (spec or (P | V)) & V and rng.random() < 0.4:
+                B.append("set %d velrange %r %r" % (ah, -rng.uniform(0.5, 3), rng.uniform(0.5, 3)))
+            if spec & F and rng.random() < 0.4:
+                B.append("set %d ffrange %r %r" % (ah, -rng.uniform(0.5, 3), rng.uniform(0.5, 3)))
+            kind = "pid-%s-spec%d" % ("stateful" if stateful else "stateless", spec)
+        else:
+            P, V, F, U, N = (E("mjINPUT_" + x) for x in ("POS", "VEL", "FF", "VOLTAGE", "NONE"))
+            spec = rng.choice((0, N, N, P | V, P | V | F, P | V | F | U, P, F | U, V | U))
+            controller = 0 if spec in (0, N) else spec & (P | V | F)
+            R, K = rng.uniform(0.5, 5), rng.uniform(0.05, 1)
+            kpc = rng.uniform(0.5, 10) if controller else 0.0
+            kic = rng.uniform(0.1, 2) if (controller and (spec & P) and rng.random() < 0.5) else 0.0
+            kdc = rng.uniform(0.01, 0.5) if controller else 0.0
+            vmax = rng.choice((0.0, rng.uniform(5, 50))) if controller else 0.0
+            te = rng.choice((0.0, rng.uniform(0.002, 0.05)))
+            slew = rng.choice((0.0, rng.uniform(0.5, 5))) if controller else 0.0
+            RT = rng.choice((0.0, 0.0, rng.uniform(0.5, 5)))
+            na = (slew > 0) + (kic > 0) + (RT > 0) + (te > 0)
+            B += ["set %d trntype %d" % (ah, E("mjTRN_JOINT")), "set %d target %s" % (ah, target(("hinge", "slide"))["name"]),
+                  "set %d gaintype %d" % (ah, E("mjGAIN_DCMOTOR")), "set %d biastype %d" % (ah, E("mjBIAS_DCMOTOR")),
+                  "set %d dyntype %d" % (ah, E("mjDYN_DCMOTOR")), "set %d actearly 1" % ah,
+                  "set %d gainprm %r %r %r %r %r %r %r %r" % (ah, R, K, 0.004 if RT else 0.0, 20.0 if RT else 0.0, kpc, kic, kdc, vmax),
+                  "set %d dynprm %r %r %r %r %r 0 0 %r %r" % (ah, te, rng.choice((0.0, rng.uniform(50, 500))) if te else 0.0, RT,
+                                                            rng.uniform(1, 20) if RT else 0.0, 20.0 if RT else 0.0, slew,
+                                                            rng.choice((0.0, rng.uniform(0.2, 2))) if kic else 0.0),
+                  "set %d actdim %d" % (ah, na)]
+            if spec:
+                B.append("set %d ctrlspec %d" % (ah, spec))
+            nin = 0 if spec == N else popcount(spec or U)
+            kind = "dcmotor-spec%d-na%d" % (spec, na)
+        if nin and rng.random() < 0.35:
+            B += ["set %d ctrllimited %d" % (ah, E("mjLIMITED_TRUE")), "set %d ctrlrange %r %r" % (ah, -rng.uniform(0.2, 2), rng.uniform(0.2, 2))]
+        if rng.random() < 0.15:
+            B.append("set %d group %d" % (ah, rng.randint(0, 3)))
+        blocks.append(B)
+        added.append((kind, nin))
+        hist[kind.split("-")[0] + ":%d-inputs" % nin] = hist.get(kind.split("-")[0] + ":%d-inputs" % nin, 0) + 1
+        mdl.actuators.append({"name": an, "kind": kind, "joint": None, "na": na})
+        mdl.nu += nin
+        mdl.na += na
+    # where the new blocks go relative to the generated actuators: positions of the existing `actuator <h>` lines
+    starts = [i for i, l in enumerate(mdl.lines) if l.startswith("actuator ")]
+    if starts:
+        # end of the actuator section = first line after the last actuator block that opens another element
+        end = starts[-1] + 1
+        while end < len(mdl.lines) and mdl.lines[end].split()[0] in ("set", "name"):
+            end += 1
+        cuts = starts + [end]
+    else:
+        cuts = [len(mdl.lines)]
+    lines = list(mdl.lines)
+    for B in blocks:
+        at = rng.choice(cuts)
+        lines[at:at] = B
+        cuts = [c + (len(B) if c >= at else 0) for c in cuts]
+    mdl.lines[:] = lines + tail
+    return added
+
+
+def add_sleeping(rng, mdl):
+    """sleeping enabled and some trees INITIALISED asleep (body policy mjSLEEP_INIT): mj_checkVel / mj_checkAcc then scan
+    dof_awake_ind only.  Returns the number of trees put to sleep."""
+    jointed = {j["body"] for j in mdl.joints}
+    tops = [b for b in mdl.bodies if b.get("toplevel") and not b["mocap"] and b["name"] in jointed]
+    if not tops:
+        return 0
+    chosen = [b for b in tops if rng.random() < 0.6] or [rng.choice(tops)]
+    out = []
+    for l in mdl.lines:
+        if l.startswith("option enableflags "):
+            l = "option enableflags %d" % (int(l.split()[2]) | E("mjENBL_SLEEP"))
+        out.append(l)
+        t = l.split()
+        if t[0] == "body" and any(int(t[1]) == b["handle"] for b in chosen):
+            out.append("set %s sleep %d" % (t[1], E("mjSLEEP_INIT")))
+    mdl.lines[:] = out
+    mdl.options["enableflags"] = mdl.options.get("enableflags", 0) | E("mjENBL_SLEEP")
+    return len(chosen)
+
+
+def make_models(ctx, count, hist=None):
+    """generated models; about two thirds get multi-input actuators (nu != nactuator), a quarter sleeping trees"""
+    hist = hist if hist is not None else {}
     out = []
     while len(out) < count:
         mdl = ModelGen(ctx.rng, PROFILE).make()
         if mdl.nq == 0:
             continue
+        mdl.c30 = {"multi": [], "sleeping": 0}
+        if ctx.rng.random() < 0.65:
+            mdl.c30["multi"] = add_multi_input(ctx.rng, mdl, hist)
+        mdl.c30["lines_awake"] = list(mdl.lines)
+        if ctx.rng.random() < 0.25:
+            mdl.c30["sleeping"] = add_sleeping(ctx.rng, mdl)
         out.append(mdl)
     return out
 
 
-def inject_cases(ctx, mdl, per_field):
-    """(field, index, value) triples: every index when the field is small, else a seeded sample"""
+INJECT_FIELDS = ("qpos", "qvel", "act", "ctrl", "qfrc_applied", "xfrc_applied", "mocap_pos", "mocap_quat")
+
+
+def inject_cases(ctx, sizes, per_field):
+    """(field, index, value) triples over the REAL array lengths reported by the engine for the compiled model
+    (nq != nv with ball / free joints, nu != nactuator with multi-input actuators, na != nu): every index of ctrl and
+    act, every index of the other fields when they are small, else a seeded sample that always contains the last
+    index; NaN at every chosen index plus two (thorough: all) of the other bad values"""
     rng = ctx.rng
-    sizes = {"qpos": mdl.nq, "qvel": mdl.nv, "act": mdl.na, "ctrl": mdl.nu, "qfrc_applied": mdl.nv,
-             "xfrc_applied": 6 * (len(mdl.bodies) + 1)}
+    n_of = {"qpos": sizes["nq"], "qvel": sizes["nv"], "act": sizes["na"], "ctrl": sizes["nu"], "qfrc_applied": sizes["nv"],
+            "xfrc_applied": 6 * sizes["nbody"], "mocap_pos": 3 * sizes["nmocap"], "mocap_quat": 4 * sizes["nmocap"]}
     cases = []
-    for f, n in sizes.items():
+    for f in INJECT_FIELDS:
+        n = n_of[f]
         idx = list(range(n))
-        if len(idx) > per_field:
+        if len(idx) > per_field and f not in ("ctrl", "act"):
             idx = sorted(set(rng.sample(idx, per_field - 1) + [n - 1]))
         for i in idx:
             vals = BADVALS if ctx.tier == "thorough" else ["nan"] + rng.sample(BADVALS[1:], 2)
             for v in vals:
                 cases.append((f, i, v))
     return cases
+
+
+def probe_model(exe, text):
+    """compiles the description in its own REPL process (a compiler message may span several lines) and returns the
+    engine's own sizes: nq nv na nu nmocap nbody nactuator + the per-actuator control / activation block lengths"""
+    R = Repl(exe)
+    R.model(text)
+    for mf in ("actuator_ctrlnum", "actuator_ctrladr", "actuator_actnum"):
+        R.cmd("numm " + mf)
+    rc, out, err = R.run()
+    if rc != 0 or not out or not out[0].startswith("ok ") or len(out) != 4:
+        return None
+    t = out[0].split()
+    sizes = {k: int(v) for k, v in zip(t[1::2], t[2::2]) if k in ("nq", "nv", "na", "nu", "nmocap", "nbody")}
+    for mf, o in zip(("ctrlnum", "ctrladr", "actnum"), out[1:]):
+        sizes[mf] = [int(float(x)) for x in (parse_nums(o) or [])]
+    sizes["nactuator"] = len(sizes["ctrlnum"])
+    return sizes
 
 
 def fmtv(v):
@@ -208,7 +431,9 @@ def fmtv(v):
 def engine_oracle(ctx, exe, nmodels, per_field):
     """returns statistics; reports failures through ctx.oracle_failure"""
     stats = {"models": 0, "injections": 0, "caught": {"qpos": 0, "qvel": 0, "qacc": 0, "ctrl": 0}, "resets_verified": 0,
-             "benign_no_warning": 0, "by_field": {}, "autoreset_off": 0, "nonfinite_after_one_step": {}, "nonfinite_after_two_steps": {}}
+             "benign_no_warning": 0, "by_field": {}, "autoreset_off": 0, "nonfinite_after_one_step": {}, "nonfinite_after_two_steps": {},
+             "sleep_init_refused": 0, "models_rejected_by_compiler": 0, "models_whose_clean_step_raises_an_engine_error": 0, "generator_size_bookkeeping_off": 0, "model_shapes": {},
+             "multi_input_actuators": {}, "ctrl_injections_at_index_ge_nactuator": 0, "injections_into_sleeping_models": 0}
     failures = {}
 
     def fail(key, what, replay):
@@ -217,11 +442,10 @@ def engine_oracle(ctx, exe, nmodels, per_field):
         if failures[key] <= 3:
             ctx.oracle_failure(key, what, replay)
 
-    for mi, mdl in enumerate(make_models(ctx, nmodels)):
+    for mi, mdl in enumerate(make_models(ctx, nmodels, stats["multi_input_actuators"])):
         rng = ctx.rng
         # variants: autoreset on (default) / off; some models get a disabled actuator group or mjDSBL_ACTUATION
         variant = "plain"
-        text = mdl.text()
         r = rng.random()
         extra = []
         if mdl.na and r < 0.35:
@@ -229,12 +453,43 @@ def engine_oracle(ctx, exe, nmodels, per_field):
             extra = ["option disableactuator %d" % 0xF]          # groups 0..3: every generated actuator
         elif mdl.na and r < 0.5:
             variant = "dsbl-actuation"
-        lines = list(mdl.lines)
-        if variant == "dsbl-actuation":
-            lines = [("option disableflags %d" % (int(l.split()[2]) | E("mjDSBL_ACTUATION"))) if l.startswith("option disableflags ") else l
-                     for l in lines]
+
+        def finish_lines(ls):
+            ls = list(ls)
+            if variant == "dsbl-actuation":
+                ls = [("option disableflags %d" % (int(l.split()[2]) | E("mjDSBL_ACTUATION"))) if l.startswith("option disableflags ") else l
+                      for l in ls]
+            return ls
+        lines = finish_lines(mdl.lines)
         text = "\n".join(lines + extra + ["end"]) + "\n"
+        sizes = probe_model(exe, text)
+        sleeping = mdl.c30["sleeping"]
+        if sizes is None and sleeping:
+            # the engine refuses to put these trees to sleep (contact with an awake tree, tendon coupling, ...): same model awake
+            stats["sleep_init_refused"] += 1
+            sleeping = 0
+            lines = finish_lines(mdl.c30["lines_awake"])
+            text = "\n".join(lines + extra + ["end"]) + "\n"
+            sizes = probe_model(exe, text)
+        if sizes is None:
+            stats["models_rejected_by_compiler"] += 1
+            continue
         st = mdl.random_state(rng)
+        want = {"qpos": sizes["nq"], "qvel": sizes["nv"], "act": sizes["na"], "ctrl": sizes["nu"], "qfrc_applied": sizes["nv"],
+                "xfrc_applied": 6 * sizes["nbody"], "mocap_pos": 3 * sizes["nmocap"], "mocap_quat": 4 * sizes["nmocap"]}
+        if any(len(st[f]) != n for f, n in want.items()):
+            stats["generator_size_bookkeeping_off"] += 1          # harmless: the engine's sizes are used
+            for f, n in want.items():
+                st[f] = (list(st[f]) + [0.0] * n)[:n]
+        if sleeping:
+            # keep the trees asleep until the injection: reset pose, zero velocity, no applied force (a non-zero byte in
+            # qvel / qfrc_applied / xfrc_applied or a changed qpos wakes the tree in mj_kinematics); controls stay random
+            st = dict(st, qpos=[], qvel=[], qfrc_applied=[], xfrc_applied=[], mocap_pos=[], mocap_quat=[])
+        shape = "nu%snact" % ("=" if sizes["nu"] == sizes["nactuator"] else ">" if sizes["nu"] > sizes["nactuator"] else "<")
+        for k2 in (shape, "nq%snv" % ("=" if sizes["nq"] == sizes["nv"] else ">"),
+                   "na%snu" % ("=" if sizes["na"] == sizes["nu"] else ">" if sizes["na"] > sizes["nu"] else "<"),
+                   "sleeping-trees" if sleeping else "all-awake", "mocap" if sizes["nmocap"] else "no-mocap"):
+            stats["model_shapes"][k2] = stats["model_shapes"].get(k2, 0) + 1
         for autoreset in ((1, 0) if (ctx.tier == "thorough" or mi % 3 == 0) else (1,)):
             R = Repl(exe)
             R.model(text)
@@ -244,25 +499,29 @@ def engine_oracle(ctx, exe, nmodels, per_field):
                     flags = int(l.split()[2])
             if not autoreset:
                 R.cmd("setm opt.disableflags %d" % (flags | E("mjDSBL_AUTORESET")))
-            for mf in ("actuator_gaintype", "actuator_gainprm", "actuator_dyntype"):
+            for mf in ("actuator_gaintype", "actuator_gainprm", "actuator_dyntype", "dof_treeid"):
                 R.cmd("numm " + mf, ("mf", mf))
             for k in (0, 1, 2):
                 R.cmd("data %d" % k)
+            R.cmd("num 1 tree_asleep", ("mf", "tree_asleep"))          # fresh data: >= 0 for the trees initialised asleep
             base = []
-            for f in ("qpos", "qvel", "act", "ctrl", "qfrc_applied", "xfrc_applied"):
+            for f in INJECT_FIELDS:
                 if st[f]:
                     base.append("set %%d %s %s" % (f, fmtv(st[f])))
             # slot 1: reset then step (what a caught blow-up must look like); slot 2: same state, ctrl = 0, step
-            R.cmd("step 1")
+            R.cmd("step 1", ("refstep", 1))
             for f in STATE_FIELDS + ("time",):
                 R.cmd(("scalar 1 time" if f == "time" else "get 1 " + f), ("ref1", f))
             for b in base:
                 if " ctrl " not in b:
                     R.cmd(b % 2)
-            R.cmd("step 2")
+            if sizes["nu"]:
+                # explicitly zero: the reset value of a quaternion control block is the identity (1 0 0 0), not zero
+                R.cmd("set 2 ctrl " + " ".join(["0"] * sizes["nu"]))
+            R.cmd("step 2", ("refstep", 2))
             for f in STATE_FIELDS + ("time",):
                 R.cmd(("scalar 2 time" if f == "time" else "get 2 " + f), ("ref2", f))
-            cases = inject_cases(ctx, mdl, per_field)
+            cases = inject_cases(ctx, sizes, per_field)
             if not autoreset:
                 cases = [c for c in cases if c[0] in ("qpos", "qvel", "qfrc_applied")][:40]
             for ci, (f, i, v) in enumerate(cases):
@@ -284,7 +543,8 @@ def engine_oracle(ctx, exe, nmodels, per_field):
                     for g in STATE_FIELDS:
                         R.cmd("get 0 " + g, ("after2", ci, g))
             rc, out, err = R.run()
-            replay_base = {"model": text, "state": st, "autoreset": autoreset, "variant": variant,
+            replay_base = {"model": text, "state": st, "autoreset": autoreset, "variant": variant, "sizes": sizes,
+                           "multi_input_actuators": mdl.c30["multi"], "trees_initialised_asleep": sleeping,
                            "how": "feed `model` + description + the listed commands to harness/c/engine_repl.c"}
             if rc != 0 or len(out) != len(R.cmds):
                 fail("c30:engine-crash", "engine REPL crashed or stopped early (rc=%s, %d of %d outputs): %s" % (rc, len(out), len(R.cmds), err[-300:]),
@@ -292,11 +552,16 @@ def engine_oracle(ctx, exe, nmodels, per_field):
                 continue
             if not out[0].startswith("ok"):
                 continue          # model rejected by the compiler: not a case
-            stats["models"] += 1
             res = {}
             for tg, o in zip(R.tags, out):
                 if tg:
                     res[tg] = o
+            if res[("refstep", 1)].startswith("error") or res[("refstep", 2)].startswith("error"):
+                # mj_step fails on this model WITHOUT any injection (seen: "mj_sleep: found sleeping tree 0 in island 0" on
+                # the first step of a tree initialised asleep that owns a constraint): nothing to attribute to a bad value
+                stats["models_whose_clean_step_raises_an_engine_error"] += 1
+                continue
+            stats["models"] += 1
             # does the model contain the situation of the known finding c30:nonfinite-after-step:ctrl?  a stateless
             # (dyntype none) actuator with affine gain whose velocity coefficient gainprm[2] is non-zero: mjd_actuator_vel
             # multiplies that coefficient by the RAW d->ctrl when an implicit integrator builds qDeriv
@@ -305,12 +570,22 @@ def engine_oracle(ctx, exe, nmodels, per_field):
             gp = parse_nums(res[("mf", "actuator_gainprm")]) or []
             ngain = len(gp) // len(gt) if gt else 0
             velgain = any(gt[a] == E("mjGAIN_AFFINE") and dt[a] == E("mjDYN_NONE") and gp[ngain * a + 2] != 0 for a in range(len(gt)))
+            spatial_tendon = any(l.startswith("wrap ") and l.split()[2] == "site" for l in lines)
             ref1 = {f: res[("ref1", f)] for f in STATE_FIELDS + ("time",)}
             ref2 = {f: res[("ref2", f)] for f in STATE_FIELDS + ("time",)}
+            # dofs of trees that are asleep when the injection happens (only models whose base state keeps them asleep):
+            # mj_checkVel / mj_checkAcc scan dof_awake_ind only; the write wakes the tree later, in mj_kinematics
+            treeid = [int(float(x)) for x in (parse_nums(res[("mf", "dof_treeid")]) or [])]
+            tasleep = [int(float(x)) for x in (parse_nums(res[("mf", "tree_asleep")]) or [])]
+            dof_asleep = [bool(sleeping) and 0 <= t < len(tasleep) and tasleep[t] >= 0 for t in treeid]
             for ci, (f, i, v) in enumerate(cases):
                 stats["injections"] += 1
                 stats["by_field"][f] = stats["by_field"].get(f, 0) + 1
                 ctx.count((mi, autoreset, f, i, v))
+                if f == "ctrl" and i >= sizes["nactuator"]:
+                    stats["ctrl_injections_at_index_ge_nactuator"] += 1
+                if sleeping:
+                    stats["injections_into_sleeping_models"] += 1
                 if not autoreset:
                     stats["autoreset_off"] += 1
                 if res.get(("step", ci), "").startswith("error") and not autoreset:
@@ -319,8 +594,16 @@ def engine_oracle(ctx, exe, nmodels, per_field):
                     stats["engine_errors_with_autoreset_off"] = stats.get("engine_errors_with_autoreset_off", 0) + 1
                     continue
                 if res.get(("step", ci), "").startswith("error"):
-                    fail("c30:engine-error", "mj_step raised an engine error after injection: " + res[("step", ci)][:200],
-                         dict(replay_base, inject=[f, i, v]))
+                    # (act is examined by no check -- recorded finding; an engine error is one more consequence of it)
+                    # recorded findings (narrow): act and the mocap pose are examined by no check; RK4 evaluates its later
+                    # stages without a check (huge finite applied force).  Anything else is a violation.
+                    known_way = f in ("act", "mocap_pos", "mocap_quat") or (
+                        f in ("qfrc_applied", "xfrc_applied") and mdl.options["integrator"] == "RK4" and v in ("1e11", "-1e11"))
+                    fail("c30:engine-error" + (":" + f if known_way else ""),
+                         "mj_step raised an engine error after injecting %s into %s[%d] (integrator %s): %s"
+                         % (v, f, i, mdl.options["integrator"], res[("step", ci)][:200]),
+                         dict(replay_base, inject={"field": f, "index": i, "value": v},
+                              commands=["resetdata 0"] + [b % 0 for b in base] + ["setat 0 %s %d %s" % (f, i, v), "step 0"]))
                     continue
                 w0 = {w: int(res[("w0", ci, w)]) for w in (W_QPOS, W_QVEL, W_QACC, W_CTRL)}
                 w1 = {w: int(res[("w1", ci, w)]) for w in (W_QPOS, W_QVEL, W_QACC, W_CTRL)}
@@ -343,6 +626,10 @@ def engine_oracle(ctx, exe, nmodels, per_field):
                             narrow = integ in ("implicit", "implicitfast") and velgain
                         elif f in ("qfrc_applied", "xfrc_applied"):
                             narrow = integ == "RK4" and v in ("1e11", "-1e11")
+                        elif f in ("mocap_pos", "mocap_quat"):
+                            # recorded: a non-finite mocap pose reaches a spatial tendon; its NaN velocity enters qDeriv
+                            # (mjd_passive_vel, even with zero damping) while qacc stays finite
+                            narrow = integ in ("implicit", "implicitfast") and spatial_tendon
                         else:
                             narrow = True          # act: never scanned by mj_check*; qpos / qvel: no recorded finding
                         fail("c30:nonfinite-after-step:" + f + ("" if narrow else ":other-mechanism"),
@@ -359,10 +646,21 @@ def engine_oracle(ctx, exe, nmodels, per_field):
                     # B: bad positions / velocities are caught by their own check
                     if f in ("qpos", "qvel"):
                         w = W_QPOS if f == "qpos" else W_QVEL
-                        if w1[w] < 1:
+                        if w1[w] < 1 and f == "qvel" and dof_asleep[i]:
+                            # recorded finding: the velocity of a SLEEPING dof is outside mj_checkVel's scan; what must
+                            # still hold: a non-finite value is caught one stage later as a bad acceleration (clause C
+                            # then verifies the reset), a huge finite one leaves a finite state (clause A above)
+                            stats["sleeping_dof_bad_qvel"] = stats.get("sleeping_dof_bad_qvel", 0) + 1
+                            fail("c30:bad-qvel-not-warned:sleeping-dof", "bad value %s in qvel[%d] of a sleeping tree: mjWARN_BADQVEL stays %d "
+                                 "(mj_checkVel scans dof_awake_ind only; BADQACC counter %d)" % (v, i, w1[w], w1[W_QACC]), rp)
+                            if v in ("nan", "inf", "-inf") and W_QACC not in caught:
+                                fail("c30:bad-qvel-sleeping-dof-not-caught", "non-finite qvel[%d] = %s of a sleeping tree raised neither BADQVEL nor BADQACC" % (i, v), rp)
+                                continue
+                        elif w1[w] < 1:
                             fail("c30:bad-%s-not-warned" % f, "bad value %s in %s[%d]: warning counter %d stays %d" % (v, f, i, w, w1[w]), rp)
                             continue
-                        stats["caught"][f] += 1
+                        else:
+                            stats["caught"][f] += 1
                     # C: a fired check means the data is the reset data, advanced by this step
                     if caught:
                         if not was_reset:
@@ -389,6 +687,11 @@ def engine_oracle(ctx, exe, nmodels, per_field):
                 else:
                     if f in ("qpos", "qvel"):
                         w = W_QPOS if f == "qpos" else W_QVEL
+                        if w1[w] != w0[w] + 2 and f == "qvel" and dof_asleep[i] and w1[w] == w0[w]:
+                            stats["sleeping_dof_bad_qvel"] = stats.get("sleeping_dof_bad_qvel", 0) + 1
+                            fail("c30:bad-qvel-not-warned:sleeping-dof", "autoreset disabled, bad value %s in qvel[%d] of a sleeping tree: "
+                                 "mjWARN_BADQVEL stays %d (BADQACC counter %d -> %d)" % (v, i, w1[w], w0[W_QACC], w1[W_QACC]), rp)
+                            continue
                         if w1[w] != w0[w] + 2:
                             fail("c30:noautoreset-counter", "autoreset disabled, bad %s[%d] = %s: counter %d went %d -> %d (expected +2: mj_warning and number++)" % (f, i, v, w, w0[w], w1[w]), rp)
                             continue
